@@ -72,7 +72,7 @@ type hist struct {
 	reserved      map[OP]bool
 	confirmed     map[Hash]bool // txids in blocks of the active reference chain
 	everConfirmed map[Hash]bool
-	replaced      map[Hash]bool // txids seen pooled at some walk
+	everPooled    map[Hash]bool // txids seen pooled at some walk
 	baseHeight    uint32
 
 	v       *pview
@@ -83,6 +83,11 @@ type hist struct {
 	maxPool int
 	stopped bool
 	poisonOn bool
+
+	lastDeliver     string // why the last delivery made node and reference disagree ("" = they agree)
+	lastNode        string // the node's verdict on the last delivered block
+	pendingFindings []finding
+	maxEvNet        int
 }
 
 func (h *hist) note(format string, a ...interface{}) {
@@ -115,7 +120,7 @@ func childMain(args []string) {
 	run := vlib.StartChild(ID, seed, tier)
 	h := &hist{run: run, prof: profileOf(idx), steps: steps, base: base,
 		known: map[OP]refchain.Coin{}, gen: map[Hash]*genTx{}, reserved: map[OP]bool{},
-		confirmed: map[Hash]bool{}, everConfirmed: map[Hash]bool{}, replaced: map[Hash]bool{}}
+		confirmed: map[Hash]bool{}, everConfirmed: map[Hash]bool{}, everPooled: map[Hash]bool{}}
 	h.r = vlib.NewRand(uint64(seed)).Fork(fmt.Sprintf("C12/history/%d", idx))
 	h.jf, _ = os.Create(base + ".journal")
 	status := "completed"
@@ -263,6 +268,7 @@ func (h *hist) deliver(b *refchain.Block, family string, mustConnect bool) bool 
 	h.note("block %s family=%s txs=%d ref=%s/%s node=%s/%s", b.Hash(), family, len(b.Txs), rr.Stage, rr.Reason, gr.Stage, cut(gr.Err, 120))
 	h.run.Inc("blocks_delivered")
 	h.run.Inc("blocks/" + family)
+	h.lastNode = gr.Stage + "/" + gr.Err
 	th, _ := h.node.Tip()
 	if h.ref.Tip != oldTip {
 		h.rebuildConfirmed()
@@ -477,7 +483,7 @@ func (h *hist) check(full bool) bool {
 	h.pendingFindings = nil
 	h.v = v
 	for _, e := range v.ents {
-		h.replaced[e.id] = true
+		h.everPooled[e.id] = true
 	}
 	if len(fs) == 0 {
 		return true
